@@ -62,7 +62,9 @@ def generate(rng, tier):
     cases.append(['case %d cluster' % idx, 'nodes 4', 'dist-start 0', 'dist-change 0 - 12@2', 'dist-put 0 1 aa',
                   'dist-change 0 12@2 12@3', 'dist-put 0 2 bb', 'dist-burst 0 1500', 'dist-change 0 - 13@1', 'dist-put 0 4 dd',
                   'dist-change 0 12@3 -', 'dist-put 0 3 cc', 'end']); idx += 1
-    for _ in range(dict(quick=3, thorough=60, search=8)[tier]):
+    cases.append(['case %d cluster' % idx, 'nodes 4', 'dist-start 0', 'dist-change 0 - 12@2,13@3', 'dist-change 0 - 14@2', 'dist-put 0 1 aa',
+                  'dist-change 0 12@2 -', 'dist-put 0 2 bb', 'dist-change 0 14@2 -', 'dist-put 0 3 cc', 'end']); idx += 1
+    for _ in range(dict(quick=5, thorough=90, search=10)[tier]):
         cases.append(gen_dist(rng.fork(), idx)); idx += 1
     cases.append(['case %d cluster' % idx, 'nodes 4', 'put 1 5 aa', 'put 2 6 bb', 'put 3 7 cc', 'poll-start 0 200', 'poll-change 0 - 11@1,12@2',
                   'poll-change 0 12@2 12@3', 'poll-wait 0 1500', 'read 0', 'end']); idx += 1
@@ -85,10 +87,15 @@ def gen_dist(rng, idx):
     members = {}          # member id -> node index (its address)
     doc = 0
     for _ in range(rng.range(2, 4)):
-        k = rng.below(5)
+        k = rng.below(6)
         left, joined = [], []
         free = [x for x in (1, 2, 3) if x not in members.values()]
-        if k == 0 and members and free:                      # address change of a live member, one change
+        if k == 5 and members and len(members) < 4:
+            # a peer that came back under a NEW id at the address it had (the old identity is still listed and leaves in a later
+            # change - or never): the members are identities, the address stays a target as long as one of them lives there
+            at = rng.choice(sorted(members.values())); mid = rng.choice([m for m in (11, 12, 13, 14) if m not in members])
+            joined.append('%d@%d' % (mid, at)); members[mid] = at
+        elif k == 0 and members and free:                      # address change of a live member, one change
             mid = rng.choice(sorted(members)); new = rng.choice(free)
             left.append('%d@%d' % (mid, members[mid])); joined.append('%d@%d' % (mid, new)); members[mid] = new
         elif k == 1 and members:                             # leave
